@@ -204,8 +204,9 @@ Fixpoint vertices_close (tol : Q) (a b : list vertex) : bool :=
    get_inside_pointcloud_num, point_exist *)
 Definition check_box (b : box) (k : Q) (cloud : list point) (corners : list vertex)
            (ins outs : list nat) (num : nat) (exist : bool) : bool :=
+  let n := inside_num b k cloud in                 (* point_exist b k cloud is by definition (0 <? n) *)
   vertices_close (1 # 1000000000) (box_corners b k) corners &&
   nat_list_eqb (box_crop_idx b k true cloud) ins &&
   nat_list_eqb (box_crop_idx b k false cloud) outs &&
-  Nat.eqb (inside_num b k cloud) num &&
-  Bool.eqb (point_exist b k cloud) exist.
+  Nat.eqb n num &&
+  Bool.eqb (0 <? n)%nat exist.
